@@ -31,14 +31,17 @@ where
                 Ok(ok)
             }
             Err(Error(e)) => {
-                #[cfg(feature = "autocomplete")]
-                args.swap_comps(&mut clone);
                 if e.can_catch() {
+                    #[cfg(feature = "autocomplete")]
+                    args.swap_comps(&mut clone);
                     match (self.fallback)() {
                         Ok(ok) => Ok(ok),
                         Err(e) => Err(Error(Message::PureFailed(e.to_string()))),
                     }
                 } else {
+                    // not an absence: fail the way the inner parser would on its own,
+                    // keeping what it consumed and how deep it went
+                    std::mem::swap(args, &mut clone);
                     Err(Error(e))
                 }
             }
@@ -494,11 +497,14 @@ where
                 Ok(ok)
             }
             Err(Error(e)) => {
-                #[cfg(feature = "autocomplete")]
-                args.swap_comps(&mut clone);
                 if e.can_catch() {
+                    #[cfg(feature = "autocomplete")]
+                    args.swap_comps(&mut clone);
                     Ok(self.value.clone())
                 } else {
+                    // not an absence: fail the way the inner parser would on its own,
+                    // keeping what it consumed and how deep it went
+                    std::mem::swap(args, &mut clone);
                     Err(Error(e))
                 }
             }
